@@ -51,6 +51,10 @@ CHECKS.update({
             "Bounded: for 12 structured specs (~, |, keyword and tuple nestings two deep, transform-sharing) x null layouts x index kinds x outputs: result and .model_spec have the formula's nested shape, all parts keep the same rows, each part equals for all values the separate build of its terms with the joint drop set, what its own spec regenerates, what the structured spec regenerates jointly, and replays its recorded state on a row subset.",
             "4 rows; nesting <= 2; multistage formulas excluded.",
             "DESIGN.md §3 C07"),
+    "C03": ("SR", "real pipeline builds reduced and unreduced matrices on a crossed design; z3 QF_LRA decides over the coefficient vector (the universally quantified object): no non-zero c with R.c = 0, span inclusions both ways, with an explicit 1e-8 margin on the exact rationals of the computed cells; second generic point + native float-rank replay before reporting",
+            "Bounded: for every ordered family of <=2 terms (quick; + 300 seeded 3-term families; thorough: all 2955 ordered families) over the 15 factor subsets of {A(2), B(3), D(2), a numeric}, intercept on/off, clustering on/off, and the built-in contrasts for <=2-term families: the rank-reduced matrix has independent columns and the same column space as the unreduced one.",
+            "Numeric data concrete (two generic rational points stand for 'general position'); fully crossed design replicated 3x (36 rows); <=3 terms, <=3 levels.",
+            "DESIGN.md §3 C03"),
 })
 
 NOT_APPLICABLE = {
